@@ -144,6 +144,10 @@ type RequestDecoder struct {
 // Done reports whether both the PARAMS and the STDIN stream were terminated.
 func (d *RequestDecoder) Done() bool { return d.paramsDone && d.stdinDone }
 
+// ParamsDone and StdinDone report the state of each stream.
+func (d *RequestDecoder) ParamsDone() bool { return d.paramsDone }
+func (d *RequestDecoder) StdinDone() bool  { return d.stdinDone }
+
 // Feed checks one record against the Responder protocol (spec 6.2: BEGIN_REQUEST
 // first, then PARAMS and STDIN streams, each closed by an empty record).
 func (d *RequestDecoder) Feed(r Record) error {
